@@ -347,6 +347,7 @@ func witnesses() []kase {
 		mk("delete through a link in a parent directory", request{Op: "delete", Path: "@/allowed/link/secret.txt"}),
 		mk("recursive delete through a link in a parent directory", request{Op: "delete", Path: "@/allowed/link/dir2", Recursive: true}),
 		mk("delete a link to a directory", request{Op: "delete", Path: "@/allowed/link", Recursive: true}),
+		{Note: "upload below an allowed root that does not exist yet", Tree: links, Allowed: []string{"@/nonexistent/deep"}, Req: request{Op: "upload", Path: "@/nonexistent/deep/f.txt", Data: "UP"}},
 		mk("lexical traversal", request{Op: "download", Path: "@/allowed/../outside/secret.txt"}),
 		mk("prefix bypass", request{Op: "download", Path: "@/allowedevil/e.txt"}),
 		{Note: "empty allow list", Tree: links, Allowed: []string{}, Req: request{Op: "download", Path: "@/allowed/pub.txt"}},
@@ -653,8 +654,14 @@ func diffOutside(c *vh.Ctx, k kase, allowed []string, root string, before, after
 			c.Fail(sigOf("chmod"), fmt.Sprintf("%s (not in allowed_paths) was chmodded by %s %s", p, k.Req.Op, k.Req.Path), k)
 		}
 	}
-	for p := range am {
+	reqRel, _ := filepath.Rel(root, filepath.Clean(expand(k.Req.Path, root)))
+	for p, a := range am {
 		if _, ok := bm[p]; !ok && notAllowed(p) {
+			if k.Req.Op == "upload" && pos == "lexical" && a.Kind == "dir" && strings.HasPrefix(reqRel+"/", p+"/") {
+				// MkdirAll created a missing directory above the allowed root itself
+				c.Fail("ft-upload-creates-ancestors-of-allowed-root", fmt.Sprintf("upload %s created the missing directory %s, which lies above every allowed path", k.Req.Path, p), k)
+				continue
+			}
 			c.Fail(sigOf("created"), fmt.Sprintf("%s (not in allowed_paths) was created by %s %s", p, k.Req.Op, k.Req.Path), k)
 		}
 	}
